@@ -44,6 +44,7 @@ def ofPath : Path → Json
   | .refFai => Json.arr #[ofStr "refFai"]
   | .refFaiData => Json.arr #[ofStr "refFaiData"]
   | .refFaiTmp => Json.arr #[ofStr "refFaiTmp"]
+  | .paramsTmp => Json.arr #[ofStr "paramsTmp"]
 
 def jPath (j : Json) : Except String Path := do
   let a ← j.getArr?
@@ -63,6 +64,7 @@ def jPath (j : Json) : Except String Path := do
   | "refFai" => pure .refFai
   | "refFaiData" => pure .refFaiData
   | "refFaiTmp" => pure .refFaiTmp
+  | "paramsTmp" => pure .paramsTmp
   | "rgSplit" => return .rgSplit (← chr)
   | "save" => return .save (← chr)
   | "groups" => return .groups (← chr)
@@ -108,7 +110,7 @@ def jBoolD (j : Json) (k : String) (d : Bool) : Except String Bool :=
 def jVariant (j : Json) : Except String Variant := do
   pure ⟨← jBool (← arg j "flushBeforeLock"), ← jBool (← arg j "dropProcessed"), ← jBool (← arg j "locksFirst"),
         ← jBool (← arg j "countUnaligned"), ← jBoolD j "cleanBeforeParams" true, ← jBoolD j "dropAtDumpPrefix" true,
-        ← jBoolD j "flushSqanti" true, ← jBoolD j "resetCounter" true, ← jBoolD j "refRewrite" true, ← jBoolD j "faiAtomic" true⟩
+        ← jBoolD j "flushSqanti" true, ← jBoolD j "resetCounter" true, ← jBoolD j "refRewrite" true, ← jBoolD j "faiAtomic" true, ← jBoolD j "paramsAtomic" true⟩
 
 def jRG (j : Json) : Except String RG := do
   match (← jStr j) with
